@@ -969,6 +969,3 @@ func traceAll(out string, n, blocks int, scen string, split int) {
 	rep.Extra["files"] = split
 	rep.Print()
 }
-
-func initState(out string)               { hx.Fatal("not yet") }
-func replayAll(in string, shard, of int) { hx.Fatal("not yet") }
